@@ -68,6 +68,12 @@ Theorem C14_rejects_overrun : forall rel b s l m rest c ctx,
   = PErr EGuard (match rev l with [] => c | x :: _ => m_end x end).
 Proof. exact os_objs_overrun. Qed.
 
+(* a declared offset beyond the data: EndOfBuffer, nothing defined, no panic *)
+Theorem C14_rejects_offset_beyond : forall rel b s onum ofs rest c ctx,
+  c <= len s -> (N.of_nat (len s) < ofs)%N ->
+  os_objs rel b ((onum, ofs) :: rest) s c ctx = (PErr EEndOfBuffer c, ctx).
+Proof. exact os_objs_offset_beyond. Qed.
+
 (* an identifier that is already defined — in the context or by an earlier member *)
 Theorem C14_rejects_duplicate : forall rel b s l m rest c ctx o,
   Forall (located rel b s) l -> ordered c l -> fresh ctx l ->
@@ -124,6 +130,7 @@ Print Assumptions C14_rejects_pairs.
 Print Assumptions C14_rejects_header.
 Print Assumptions C14_rejects_first.
 Print Assumptions C14_rejects_overrun.
+Print Assumptions C14_rejects_offset_beyond.
 Print Assumptions C14_rejects_duplicate.
 Print Assumptions C14_ctx_monotone.
 Print Assumptions C14_offsets_witness.
